@@ -53,7 +53,7 @@ static bool nontrivial(const gc::LibSpec& s, uint64_t max_points) {
         if (e.kind == gc::POLYGON && max_points > 4 && (uint64_t)e.n > max_points) return true;
         if (e.coord == gc::HALF) return true;
         if ((e.kind == gc::LABEL || e.kind == gc::REFERENCE) && (e.rot != 0 || e.mag != 0 || e.refl != 0)) return true;
-        if (e.props == 3) return true;
+        if (e.props >= 3) return true;  // two GDSII properties, or general properties mixed with GDSII ones
         if (e.xf != 0 || e.off != 0) return true;
         if (e.kind != gc::POLYGON && e.n > 8190 / 4) return true;  // centre line split over several XY records
     }
